@@ -53,17 +53,16 @@ def validate(chk, batch, part, sigfun, whatfun=None, chunk=20000):
         res = None
         try:
             res = _run(chk, batch.module, text, part)
-            final = None
-            n = 0
+            last = 0
+            failing = []
             for st in res.states():
-                n += 1
-                if final is None or st['l'] > final['l']:
-                    final = st
-            if final is None or final['l'] != len(evs) + 1:
+                last = max(last, st['l'])
+                if st['fails']:
+                    failing.append((st['l'] - 1, st['fails']))
+            if last != len(evs) + 1:
                 raise core.MachineryError('ObsTrace consumed %s of %d events (module %s)'
-                                          % (final and final['l'] - 1, len(evs), batch.module))
-            for item in (final['bad'] if not isinstance(final['bad'], dict) else []):
-                idx, clauses = item
+                                          % (last - 1, len(evs), batch.module))
+            for idx, clauses in sorted(failing):
                 ev = evs[idx - 1]
                 nfail += 1
                 for cl in sorted(clauses):
